@@ -256,7 +256,9 @@ func solveVC(vc *VC, obls []*Obl, opts SolveOpts) {
 		} else {
 			need = o.Status != "unsat"
 		}
-		if opts.AllSolvers && !o.WantSat {
+		if opts.AllSolvers && !o.WantSat && !(o.Kind == "lemma" && strings.Contains(o.Name, "[")) {
+			// thorough tier: every obligation is cross-checked on all solvers, except the enumerated cases of table
+			// lemmas (tens of thousands of ground instances, already decided by the primary solver)
 			need = true
 		}
 		if !need {
